@@ -180,10 +180,14 @@ class Session:
                 return {"kind": "RET", "value": "none"}
             if name in ("getnext", "getbulk", "fetch"):
                 it = getattr(s, name)(*args)
+                # the consumer's pattern rotates too: one loop, peek-then-loop, pages (apilib.drain_iter)
+                styles = self.sc.get("consume") or ["for", "peek", "pages"]
+                self._sn = getattr(self, "_sn", 0) + 1
+                style = styles[self._sn % len(styles)]
                 if sync:
-                    items, ending = apilib.drain_iter(it, cap)
+                    items, ending = apilib.drain_iter(it, cap, style)
                 else:
-                    items, ending = self.run(apilib.adrain_iter(it, cap))
+                    items, ending = self.run(apilib.adrain_iter(it, cap, style))
                 return {"kind": "ITER", "items": [apilib.render_pyvalue(x) for x in items], "ending": ending}
             if name == "get_engine_id":
                 return {"kind": "RET", "value": apilib.render_pyvalue(s.get_engine_id())}
